@@ -1,4 +1,65 @@
-/- C13 — placeholder; theorems follow -/
+/-
+C13 — buffered collections stay consistent under concurrent threads.
+-/
+import SC.Lemmas.Conc
+import SC.Lemmas.BufSize
+import SC.Props.C04
 namespace SC.Props
-theorem C13_placeholder : True := trivial
+open SC.Conc
+
+/-- C13: the buffered mutators hold the class-wide buffer lock from before their load to after
+their save (including any forced flush the save triggers), so they are operations of the
+one-lock machine whose shared state is the whole buffer machine state (`B.State`: disk, buffer
+entries, size, registry, every object's memory).  Instantiating the linearizability theorem:
+for every number of threads, every buffered operation sequence per thread and every schedule,
+the final buffer-machine state is that of the serial execution in lock order ... -/
+theorem C13_buffer_serialised (s0 : B.State) (progs : List (List (Conc.Op B.State))) (sched : List Nat)
+    (hd : Done (run (init s0 progs) sched)) :
+    (run (init s0 progs) sched).σ = serial s0 (run (init s0 progs) sched).log ∧
+    ∀ t p, progs[t]? = some p →
+      ((run (init s0 progs) sched).log.filter (·.1 = t)).map (·.2) = p :=
+  linearizable s0 progs sched hd
+
+/-- a serial execution of operations each of which keeps the size invariant keeps it -/
+theorem serial_keeps_sizeOK (log : List (Nat × Conc.Op B.State))
+    (h : ∀ e ∈ log, ∀ s, B.SizeOK s → B.SizeOK (e.2.apply s)) :
+    ∀ s, B.SizeOK s → B.SizeOK (serial s log) := by
+  induction log with
+  | nil => intro s hs; exact hs
+  | cons e rest ih =>
+    intro s hs
+    simp only [serial, List.foldl_cons]
+    exact ih (fun e' he' => h e' (List.mem_cons_of_mem _ he')) _ (h e List.mem_cons_self s hs)
+
+theorem steps_keep_sizeOK (steps : List B.Step) :
+    ∀ s, B.SizeOK s → B.SizeOK (Op.apply (steps.map (fun st s => B.step s st)) s) := by
+  induction steps with
+  | nil => intro s hs; exact hs
+  | cons st rest ih =>
+    intro s hs
+    simp only [List.map_cons, Op.apply_cons]
+    exact ih _ ((B.keeps_step s st).2.2 hs)
+
+/-- ... and since every step of the buffer machine keeps the size invariant (C15), so does every
+concurrent execution of operations made of machine steps: no interleaving can corrupt the
+accounting. -/
+theorem C13_accounting_survives_interleaving (s0 : B.State) (hs : B.SizeOK s0)
+    (progs : List (List (List B.Step))) (sched : List Nat)
+    (hd : Done (run (init s0 (progs.map (·.map (·.map (fun st s => B.step s st))))) sched)) :
+    B.SizeOK (run (init s0 (progs.map (·.map (·.map (fun st s => B.step s st))))) sched).σ := by
+  have hlin := linearizable s0 _ sched hd
+  rw [hlin.1]
+  refine serial_keeps_sizeOK _ ?_ s0 hs
+  intro e he
+  have hlt : e.1 < (progs.map (·.map (·.map (fun st s => B.step s st)))).length :=
+    logged_thread_exists s0 _ sched e he
+  have hp := hlin.2 e.1 _ (List.getElem?_eq_getElem hlt)
+  have hep : e.2 ∈ (progs.map (·.map (·.map (fun st s => B.step s st))))[e.1] := by
+    rw [← hp]
+    exact List.mem_map.mpr ⟨e, List.mem_filter.mpr ⟨he, by simp⟩, rfl⟩
+  simp only [List.getElem_map, List.mem_map] at hep
+  obtain ⟨steps, _, hst⟩ := hep
+  rw [← hst]
+  exact steps_keep_sizeOK steps
+
 end SC.Props
